@@ -912,6 +912,134 @@ pub fn replay(_ctx: &Ctx, case: &Value) -> Outcome {
     o
 }
 
-pub fn drive(_ctx: &Ctx) -> Summary {
-    unimplemented!("C02 drive")
+// ------------------------------------------------------------------------------------------- drive
+
+/// Spellings the printer never emits (and a few it does), one snippet per entry; every instruction kind.
+pub const CORPUS: &[&str] = &[
+    "X 0", "CNOT 0 1", "RX(pi/2) 0", "RX(-(-pi)) 0", "RX(2^3^2) 0", "RX(1-2-3) 0", "RX(-2^2) 0", "RX(2*-3) 0", "RX(1+2i) 0",
+    "RX(-(1+2.0i)) 0", "RX((1+2i)*%x) 0", "RX(pi^(1+2i)) 0", "RX(PI) 0", "RX(SIN(%theta)) 0", "RX(i) 0", "RX(2 i) 0",
+    "RX(1.5e3) 0", "RX(1E-3) 0", "RX(.5) 0", "RX(1.) 0", "RX(0x10) 0", "RX(0b101) 0", "RX(0o17) 0", "RX(1_000) 0",
+    "RX(theta) 0", "RX(theta[2] - 1) 0", "RX(cis(-%x)/sqrt(2)) 0", "RX(exp(i*pi)) 0", "RX(%a, %b) q r", "RX(((%x))) 0",
+    "DAGGER X 0", "CONTROLLED DAGGER RX(%x) 0 1", "FORKED RY(pi, pi/2) 0 1", "my-gate 0 q", "G %q",
+    "MEASURE 0", "MEASURE 0 ro", "MEASURE 0 ro[1]", "MEASURE q ro[0]", "MEASURE!fast 0 ro[0]", "MEASURE!fast q",
+    "RESET", "RESET 0", "RESET q", "FENCE", "FENCE 0 1", "FENCE q",
+    "DELAY 0 1.0", "DELAY 0 1", "DELAY 0 1 2", "DELAY 0 \"rf\" 1e-6", "DELAY 0 1 \"rf\" \"ro_rx\" 2*pi", "DELAY q theta[0]",
+    "DELAY 0 theta", "DELAY 0 sin(1)", "DELAY q %x - 1", "DELAY 0 2 - 1", "DELAY 0 %t", "DELAY 0 pi/2", "DELAY 0 -1",
+    "PULSE 0 \"rf\" flat(duration: 1.0, iq: 1.0)", "PULSE 0 1 \"cz\" my/wf", "NONBLOCKING PULSE 0 \"rf\" gaussian(t0: 1, fwhm: 2, duration: 3)",
+    "PULSE 0 \"rf\" flat()", "PULSE 0 \"a\\\"b\\\\\" wf(iq: 1+2i, duration: -1)", "CAPTURE 0 \"ro\" flat(duration: 1.0, iq: 1.0) ro[0]",
+    "NONBLOCKING CAPTURE 0 \"ro\" boxcar_kernel(duration: 1e-6) ro", "RAW-CAPTURE 0 \"ro\" 1e-6 ro[0]", "NONBLOCKING RAW-CAPTURE 0 \"ro\" 2*%t iq",
+    "SET-FREQUENCY 0 \"rf\" 5e9", "SET-PHASE 0 \"rf\" pi/2", "SET-SCALE 0 \"rf\" 0.5", "SHIFT-FREQUENCY 0 1 \"cz\" -1e6", "SHIFT-PHASE 0 \"rf\" theta[0]",
+    "SHIFT-PHASE 0 \"rf\" -theta", "SWAP-PHASES 0 \"rf\" 1 \"rf\"",
+    "ADD ro 1", "ADD ro[1] -1", "SUB r 2.0", "MUL r -0.5", "DIV r r2[3]", "MOVE ro 0x1F", "MOVE r 1e20", "MOVE r 1E-7", "MOVE r .5", "MOVE r 2.", "MOVE r r2",
+    "AND ro 1", "IOR ro ro2[1]", "XOR ro -3", "SHL i2 2", "SHR i2 1", "ASHR i2 i3", "NEG r", "NOT ro[0]",
+    "EQ ro r r2", "GE ro[0] r[1] 2", "GT ro r 2.5", "LE ro r -1", "LT ro r -1.5", "CONVERT r ro", "EXCHANGE r r2[1]", "LOAD r rs idx", "STORE rs idx[1] 2.0", "STORE rs idx r",
+    "LABEL @start", "JUMP @start", "JUMP-WHEN @loop-1 ro", "JUMP-UNLESS @END ro[2]", "HALT", "NOP", "WAIT",
+    "PRAGMA foo", "PRAGMA INITIAL_REWIRING \"PARTIAL\"", "PRAGMA LOAD-MEMORY q0 1 \"addr\"", "PRAGMA EXTERN f \"INTEGER (x : REAL)\"", "PRAGMA x 0x10",
+    "INCLUDE \"lib.quil\"", "INCLUDE \"a \\\"b\\\" \\\\ c\"",
+    "CALL f", "CALL f ro", "CALL f ro[1] 2 3.5 2.0i theta", "CALL f 1i",
+    "DECLARE ro BIT", "DECLARE r REAL[4]", "DECLARE o OCTET[2]", "DECLARE i2 INTEGER[3] SHARING r", "DECLARE b BIT[8] SHARING r OFFSET 2 BIT 1 REAL",
+    "DEFGATE G:\n    1, 0\n    0, 1", "DEFGATE G AS MATRIX:\n\t1/sqrt(2), 1/sqrt(2)\n\t1/sqrt(2), -1/sqrt(2)", "DEFGATE G(%a) AS MATRIX:\n    cos(%a), -i*sin(%a)\n    -i*sin(%a), cos(%a)",
+    "DEFGATE P AS PERMUTATION:\n    0, 1, 3, 2", "DEFGATE U(%t) p q AS PAULI-SUM:\n    XY(-%t/4) p q\n    Z(pi) q",
+    "DEFGATE S2(%t) a b AS SEQUENCE:\n    H a\n    RX(%t) b\n    CNOT a b",
+    "DEFCIRCUIT BELL a b:\n    H a\n    CNOT a b", "DEFCIRCUIT ROT(%t) q:\n    RX(%t) q\n    MEASURE q ro[0]", "DEFCIRCUIT NOARGS:\n    X 0",
+    "DEFWAVEFORM wf:\n    1, 0.5i, 1+1i", "DEFWAVEFORM my/wf(%a):\n    %a, 2*%a", "DEFWAVEFORM w:\n\t0.0, 1e-3 + (-2e-4)*i",
+    "DEFFRAME 0 \"rf\":\n    DIRECTION: \"tx\"\n    INITIAL-FREQUENCY: 5e9\n    HARDWARE-OBJECT: \"q0_rf\"", "DEFFRAME 0 1 \"cz\":\n    SAMPLE-RATE: 1e9",
+    "DEFCAL X 0:\n    PULSE 0 \"rf\" flat(duration: 1e-7, iq: 1)", "DEFCAL RX(%theta) q:\n    SHIFT-PHASE q \"rf\" -%theta/2\n    NOP",
+    "DEFCAL RX(pi/2) 0:\n\tFENCE 0\n\tNOP", "DEFCAL CONTROLLED X 0 1:\n    NOP", "DEFCAL DAGGER CONTROLLED RX(%t) q 1:\n    DELAY q 1.0",
+    "DEFCAL MEASURE 0 addr:\n    CAPTURE 0 \"ro\" flat(duration: 1e-6, iq: 1) addr", "DEFCAL MEASURE q:\n    NOP", "DEFCAL MEASURE!fast q dest:\n    RAW-CAPTURE q \"ro\" 1e-6 dest",
+    "# a comment", "X 0 # trailing comment", "X 0; Y 1", "X 0;;\n\n\nY 1",
+];
+
+fn fixture_texts(with_bench: bool) -> Vec<(String, String)> {
+    let mut v = vec![];
+    let mut files = vec!["tests/programs/calibration_cz.quil", "tests/programs/calibration_cz_phase.quil", "tests/programs/calibration_measure.quil",
+                         "tests/programs/calibration_rx.quil", "tests/programs/calibration_xy.quil"];
+    if with_bench {
+        files.push("benches/sample-calibrations.quil"); // 9 294 lines: thorough tier only
+    }
+    for f in files {
+        if let Ok(t) = std::fs::read_to_string(format!("/repo/quil-rs/{f}")) {
+            v.push((f.to_string(), t));
+        }
+    }
+    v
+}
+
+/// a seeded small edit of an accepted text (kept only if the parser still accepts the result)
+fn mutate(r: &mut impl Rng, text: &str) -> String {
+    let mut s = text.to_string();
+    match r.gen_range(0..8) {
+        0 => s = s.replace("[0]", ""),                       // bare memory references
+        1 => s = s.replace("    ", "\t"),                    // tab indentation
+        2 => s = s.replace('\n', "\n\n"),                     // blank lines (ends blocks)
+        3 => s = s.replace(" 1", " 0x1"),                    // hexadecimal integers
+        4 => s = s.replace("pi", "PI").replace("sin", "Sin"), // reserved words in other case
+        5 => s = format!("# head\n{s} # tail"),
+        6 => s = s.replace(", ", ","),                      // no blank after a comma
+        _ => s = s.replace(" + ", "+").replace(" * ", "*").replace(" / ", "/"),
+    }
+    s
+}
+
+pub fn drive(ctx: &Ctx) -> Summary {
+    let n = ctx.arg_u64("n", 150) as usize;
+    let max_listing = ctx.arg_u64("max_listing", 40) as usize;
+    let path = ctx.arg_str("out").expect("--out");
+    let mut out = std::io::BufWriter::new(std::fs::File::create(path).expect("create trace"));
+    let mut rng = util::rng(ctx.seed, 2);
+    let mut sum = Summary::default();
+    let fixtures = fixture_texts(ctx.flag("bench"));
+    // instruction texts harvested from the fixtures (as the real printer writes them: one per instruction)
+    let mut harvested: Vec<String> = vec![];
+    for (_, t) in &fixtures {
+        if let Ok(p) = Program::from_str(t) {
+            harvested.extend(p.to_instructions().iter().filter_map(|i| i.to_quil().ok()));
+        }
+    }
+    let mut sources: Vec<String> = fixtures.iter().map(|(_, t)| t.clone()).collect();
+    sources.extend(CORPUS.iter().map(|s| s.to_string()));
+    while sources.len() < n {
+        let k = rng.gen_range(1..=4);
+        let mut parts: Vec<String> = vec![];
+        for _ in 0..k {
+            let s = if !harvested.is_empty() && rng.gen_bool(0.4) { harvested.choose(&mut rng).unwrap().clone() } else { CORPUS.choose(&mut rng).unwrap().to_string() };
+            parts.push(if rng.gen_bool(0.4) { mutate(&mut rng, &s) } else { s });
+        }
+        sources.push(parts.join("\n"));
+    }
+    sources.truncate(n.max(fixtures.len()));
+    for src in &sources {
+        let rt = round_trip(src);
+        let Some(p) = rt.parsed.as_ref() else {
+            // not an accepted text: the statement says nothing about it
+            let o = Outcome::skip();
+            sum.absorb(&json!({"src": src}), &o, true);
+            continue;
+        };
+        let mut o = Outcome::ok(has_operands(p));
+        let short = if src.len() > 2000 { format!("{}…", &src[..src.char_indices().nth(2000).map(|x| x.0).unwrap_or(src.len())]) } else { src.clone() };
+        util::emit(&mut out, &json!({"ev": "reset", "fam": "text", "src": short}));
+        let listing = program_abs(p);
+        for i in &listing {
+            o.count(i["k"].as_str().unwrap());
+        }
+        let small = listing.len() <= max_listing && rt.t1.as_ref().map(|t| t.len() < 20_000).unwrap_or(false);
+        if small {
+            util::emit(&mut out, &json!({"ev": "parsed", "listing": listing}));
+            util::emit(&mut out, &json!({"ev": "printed", "t1": rt.t1.clone().unwrap_or_default()}));
+        }
+        let (reparsed, equal, same) = match &rt.failure {
+            None => (true, true, true),
+            Some((obs, _, _)) => (obs != "printed text parses" && obs != "serialization of the parsed program",
+                                  !obs.starts_with("re-parsed program") && obs != "printed text parses" && obs != "serialization of the parsed program",
+                                  false),
+        };
+        util::emit(&mut out, &json!({"ev": "done", "reparsed": reparsed, "equal": equal, "same": same}));
+        if let Some((obs, want, got)) = rt.failure {
+            o.violate(Violation::new(&obs, want, got).note(format!("source {short:?}")));
+        }
+        o.count_n("events", if small { 4 } else { 2 });
+        sum.absorb(&json!({"src": short}), &o, true);
+    }
+    sum
 }
